@@ -73,6 +73,50 @@ def scc(n, trivial, objs, rev, unknown_edge, skip_sinks, *bits):
     return sorted(comps) == sorted(exp) and once
 
 
+KEYSETS = [(0, 1, 2, 8), (8, 1, 2, 0), (0, 9, 2, 8), (16, 8, 0, 24), (0, 1, 2, 3), (3, 10, 1, 8)]
+
+
+def scck(trivial, ks, rev, nrev, *bits):
+    """4 nodes, no self loops; the nodes are objects hashed through a make_hashable function that maps them to small ints which
+    *collide* in CPython's set tables (keys equal modulo 8): together with the insertion order this varies the iteration order of
+    the node set and of the neighbour sets - the order in which Tarjan's DFS meets the nodes - independently of the graph."""
+    global LAST
+    LAST = None
+    n = 4
+    keys = KEYSETS[[k for k in range(len(KEYSETS)) if ks == k][0]]
+    trivial = True if trivial else False
+    rev = True if rev else False
+    nrev = True if nrev else False
+    adj = [[False] * n for _ in range(n)]
+    k = 0
+    for i in range(n):
+        for j in range(n):
+            if i != j:
+                adj[i][j] = True if bits[k] else False
+                k += 1
+    nodes = [Node(i) for i in range(n)]
+    order = list(range(n))
+    if rev:
+        order.reverse()
+    g = DiGraph([nodes[i] for i in order], make_hashable=lambda nd: keys[nd.i])
+    for i in order:
+        g.add_neighbors(nodes[i], [nodes[j] for j in (range(n) if not nrev else reversed(range(n))) if adj[i][j]])
+    comps = [sorted(x.i for x in c) for c in g.sccs(trivial=trivial)]
+    r = _reach(adj, n)
+    exp = []
+    seen = set()
+    for i in range(n):
+        if i in seen:
+            continue
+        comp = [i] + [j for j in range(n) if j != i and r[i][j] and r[j][i]]
+        seen.update(comp)
+        if trivial or len(comp) > 1:
+            exp.append(sorted(comp))
+    LAST = (n, trivial, keys, tuple(tuple(int(x) for x in row) for row in adj), sorted(comps))
+    flat = [x for c in comps for x in c]
+    return sorted(comps) == sorted(exp) and len(flat) == len(set(flat))
+
+
 def scc_reach(n, *a):
     scc(n, *a)
     return LAST is not None and any(len(c) > 1 for c in LAST[4])
@@ -116,6 +160,28 @@ def _flag_slices(names):
     return out
 
 
+_PK = [('trivial', 'bool'), ('ks', 'int'), ('rev', 'bool'), ('nrev', 'bool')] + [('b%d' % k, 'bool') for k in range(12)]
+_CK = ', '.join(n for n, _ in _PK)
+_SUMK = ' + '.join('b%d' % k for k in range(12))
+
+
+def _vk(edges, **kw):
+    v = dict(trivial=True, ks=0, rev=True, nrev=False)
+    idx = {}
+    k = 0
+    for i in range(4):
+        for j in range(4):
+            if i != j:
+                idx[(i, j)] = k
+                k += 1
+    for k in range(12):
+        v['b%d' % k] = False
+    for e in edges:
+        v['b%d' % idx[e]] = True
+    v.update(kw)
+    return v
+
+
 p1, c1 = _mk(1)
 p2, c2 = _mk(2)
 p3, c3 = _mk(3)
@@ -128,7 +194,8 @@ SPEC = {
     'files': ['src/zope/testrunner/digraph.py'],
     'stubs': [],
     'assumptions': ['the oracle is the reachability closure (Floyd-Warshall) computed in the harness'],
-    'outside': ['graphs with more than 4 nodes', 'make_hashable functions other than id / None'],
+    'outside': ['graphs with more than 4 nodes', 'make_hashable functions other than id / None / a small-int key map',
+                'iteration orders of CPython sets other than those induced by the listed colliding key sets and the two insertion orders'],
     'harnesses': [
         {'name': 'scc1', 'fn': 'scc', 'params': p1, 'call': c1,
          'bounds': {'quick': 'True', 'thorough': 'True'},
@@ -141,8 +208,8 @@ SPEC = {
          'fidelity': [_vec(2, [(0, 1), (1, 0)], objs=True)]},
         {'name': 'scc3', 'fn': 'scc', 'params': p3, 'call': c3,
          # quick: rev fixed to False (insertion order is explored in scc2 and in thorough)
-         'bounds': {'quick': 'not rev', 'thorough': 'True'},
-         'slices': {'quick': _flag_slices(['trivial', 'objs', 'unknown_edge', 'skip_sinks']),
+         'bounds': {'quick': 'not rev and not unknown_edge', 'thorough': 'True'},
+         'slices': {'quick': [x + ' and not unknown_edge' for x in _flag_slices(['trivial', 'objs', 'skip_sinks'])],
                     'thorough': _flag_slices(['trivial', 'objs', 'unknown_edge', 'skip_sinks', 'rev'])},
          'reach': 'scc_reach',
          'reach_bounds': {'quick': 'not rev and not objs and not trivial', 'thorough': 'not rev and not objs and not trivial'},
@@ -156,5 +223,13 @@ SPEC = {
                                  for t in _flag_slices(['a0', 'a1', 'a2', 'a3'])]},
          'timeout': {'thorough': 1500},
          'fidelity': [_vec(4, e) for n, e in repo_graphs() if n == 4]},
+        {'name': 'scc4keyed', 'fn': 'scck', 'params': _PK, 'call': _CK,
+         # quick: every 4-node graph with exactly 5 edges (the smallest graphs with a cycle through three nodes plus a detour)
+         'bounds': {'quick': 'ks == 3 and trivial and %s == 5' % _SUMK, 'thorough': '0 <= ks < %d and 4 <= %s <= 7' % (len(KEYSETS), _SUMK)},
+         'slices': {'quick': ['%s and %s and %s' % (r, b, c) for r in ('rev', 'not rev') for b in ('nrev', 'not nrev') for c in _flag_slices(['b0', 'b1'])],
+                    'thorough': ['ks == %d and %s and %s and %s' % (k, r, t, b) for k in range(len(KEYSETS)) for r in ('rev', 'not rev') for t in ('trivial', 'not trivial')
+                                 for b in _flag_slices(['b0', 'b1'])]},
+         'timeout': {'quick': 300, 'thorough': 1700},
+         'fidelity': [_vk([(0, 1), (1, 2), (2, 0), (2, 3), (3, 1)]), _vk([(0, 1), (1, 0), (2, 3), (3, 2), (2, 1)], ks=3, rev=False, trivial=False)]},
     ],
 }
